@@ -106,6 +106,9 @@ func toNative(fr *frame, v value) any {
 		}
 		if n, ok := x.t.(*types.Named); ok && n.Obj().Pkg() != nil && n.Obj().Pkg().Path() == "runtime" {
 			if s, ok := x.v.(string); ok {
+				if n.Obj().Name() == "errorString" {
+					return nativeErr{"runtime error: " + s}
+				}
 				return nativeErr{s}
 			}
 		}
